@@ -10,7 +10,7 @@
      holds_dyn / holds_clip / holds_rew / holds_term
                   the property itself on lerax's outputs: equal to the Gymnasium reference formulas
    The Q reference twins below mirror ClassicControl.v line by line. *)
-From Coq Require Import List Bool QArith Qminmax ZArith.
+From Coq Require Import List Bool QArith Qminmax Qround Qabs ZArith.
 From Lerax Require Import Common CCBase Gen_CartPole Gen_MountainCar Gen_ContinuousMountainCar Gen_Acrobot.
 Import ListNotations.
 Local Open Scope Q_scope.
@@ -148,6 +148,22 @@ Module QAcrobot.
   (* cn0 = cos theta1', cn01 = cos (theta2' + theta1') *)
   Definition terminated (cn0 cn01 : Q) : bool := Qltb 1 (- cn0 - cn01).
   Definition reward (cn0 cn01 : Q) : Q := if terminated cn0 cn01 then 0 else - 1.
+  (* the limit map of step(): wrap(theta, -pi, pi) for both angles, bound(velocity, -MAX_VEL, MAX_VEL) with
+     MAX_VEL_1 = 4 pi, MAX_VEL_2 = 9 pi.  `wrap_ok x r`: r lies in [-pi, pi] and differs from x by a whole number
+     of turns (GymAcrobot.wrap_spec, up to the tolerance; pi is the float64 constant handed over by the harness) *)
+  Definition bound (x lo hi : Q) : Q := Qmin (Qmax x lo) hi.
+  Definition wrap_ok (tol pi x r : Q) : bool :=
+    let k := Qfloor ((r - x) / (2 * pi) + (1 # 2)) in
+    Qle_bool (- pi - tol) r && Qle_bool r (pi + tol) &&
+    Qle_bool (Qabs (r - x - inject_Z k * (2 * pi))) (tol * Qmax 1 (Qabs x)).
+  Definition limits_ok (tol pi : Q) (pre l : list Q) : bool :=
+    match pre, l with
+    | [p0; p1; p2; p3], [l0; l1; l2; l3] =>
+        wrap_ok tol pi p0 l0 && wrap_ok tol pi p1 l1 &&
+        Qle_bool (Qabs (l2 - bound p2 (- (4 * pi)) (4 * pi))) (tol * Qmax 1 (Qabs p2)) &&
+        Qle_bool (Qabs (l3 - bound p3 (- (9 * pi)) (9 * pi))) (tol * Qmax 1 (Qabs p3))
+    | _, _ => false
+    end.
 End QAcrobot.
 
 (* ---------------------------------------------------------------- the checks *)
@@ -233,7 +249,7 @@ Definition holds_clip (c : case) : bool :=
   | ECartPole => Qclose_list (c_tol c) (c_l_clip c) (c_pre c)
   | EMountainCar => Qclose_list (c_tol c) (c_l_clip c) (QMountainCar.limits (p 0%nat) (p 1%nat))
   | ECMC => Qclose_list (c_tol c) (c_l_clip c) (QCMC.limits (p 0%nat) (p 1%nat))
-  | EAcrobot => true
+  | EAcrobot => QAcrobot.limits_ok (c_tol c) (c_pi c) (c_pre c) (c_l_clip c)
   end.
 (* +100 / 0 / -1 decided on the NEXT state, by lerax's own termination flag of that state ... *)
 Definition holds_rew (c : case) : bool := Qclose (c_tol c) (c_l_rew c) (ref_reward c (c_l_term c)).
